@@ -496,6 +496,21 @@ def update_forms(R, ctx, cfg, tag):
     R.check(n >= 12, 'form-paths' + tag, 'only %d update-form paths were interpreted' % n)
 
 
+SCALAR_SYMS = {'c', 'h'}   # index-independent symbols: a uniform row / column factor of a matrix is a scalar factor
+
+
+def mnorm(v):
+    """normal form of a matrix unit: index-independent symbols of the row / column parts are folded into the scalar part"""
+    if v is None or v[0] != 'M':
+        return v
+    r, c, s_ = dict(v[1]), dict(v[2]), dict(v[3])
+    for side in (r, c):
+        for k in list(side):
+            if k in SCALAR_SYMS:
+                s_ = umul(s_, {k: side.pop(k)})
+    return M(r, c, s_)
+
+
 def export_units(R, ctx, cfg, tag):
     F = ctx.facts(cfg)
     f = F.one(name='save_to_file')
@@ -507,7 +522,7 @@ def export_units(R, ctx, cfg, tag):
         if e[0] == 'call' and e[1] in ('to_string', 'to_writer', 'to_vec', 'to_string_pretty'):
             done.append(1)
             for fld, want in (('P', M(ONE, ONE, ONE)), ('q', V(ONE)), ('A', M(ONE, ONE, ONE)), ('b', V(ONE))):
-                got = st.get('self.data.%s' % fld, DECL[('DefaultProblemData', fld)])
+                got = mnorm(st.get('self.data.%s' % fld, DECL[('DefaultProblemData', fld)]))
                 R.check(got == want, 'exported|%s%s' % (fld, tag),
                         'on some path the serialised %s still carries the scaling %s: the file would not describe the user\'s problem' % (fld, vfmt(got)), f.loc())
     I.run({}, on_event=on_event)
@@ -615,6 +630,8 @@ def c19(ctx, rep):
         tag = ''
         R = rep.rule('C19.R1u', 'units: exported P, q, A, b are un-equilibrated')
         R.guard(lambda: export_units(R, ctx, cfg, tag))
+    # the export divides by the *recorded* scalings: it reproduces the user's data only if the stored data carry exactly those
+    premises(ctx, rep, 'C19.R6')
 
 
 def premises(ctx, rep, rid):
